@@ -1391,3 +1391,37 @@ M("C03", "decoder_hyp: remembered hypothesis handed out", "src/decoder.c", """  
     hyp = search_module_hyp(d->search, out_best_score);""", "PROV.S8-no-stale-result")
 M("C07", "feat live: cmn before the limiter (seed C07-3 core)", "src/feat.c", """    /* Only consume as much input as will fit in the buffer. */""", """    feat_cmn(fcb, uttcep, *inout_ncep, beginutt, endutt);
     /* Only consume as much input as will fit in the buffer. */""", "ORDER.cmn-after-limit")
+M("C11", "lattice: frame count rewritten by find_end_node (seed C11-3 core)", "src/fsg_search.c", """        node = last;
+        if (node)
+            E_INFO(""", """        node = last;
+        if (node)
+            dag->n_frames = ef + 1;
+        if (node)
+            E_INFO(""", "GUARD.L3-cache")
+M("C14", "json_escape: control test on a signed value (seed C14-3 core)", "src/decoder.c", "        else if (*in < 0x20)\n", "        else if ((char)*in < 0x20)\n", "TAINT.E3-escaping")
+M("C14", "json: segmentation list only when there is a hypothesis", "src/decoder.c", """    } else {
+        seg_iter_t *itor = decoder_seg_iter(d);
+        if (itor == NULL)
+            maxlen++; /* ] at end */""", """    } else {
+        seg_iter_t *itor = decoder_hyp(d, NULL) ? decoder_seg_iter(d) : NULL;
+        if (itor == NULL)
+            maxlen++; /* ] at end */""", "EMIT.E1-two-passes")
+M("C15", "vad: values stored before they are validated (seed C15-4 core)", "src/ps_vad.c", """    frame_size = (size_t)(closest_sample_rate * frame_length);
+    if (closest_sample_rate != sample_rate) {""", """    frame_size = (size_t)(closest_sample_rate * frame_length);
+    vad->frame_size = frame_size;
+    if (closest_sample_rate != sample_rate) {""", "EFFECT.vad-params")
+M("C19", "logmath_add: zero tests only without a table (seed C19-3 core)", "src/logmath.c", """    if (logb_x <= lmath->zero)
+        return logb_y;
+    if (logb_y <= lmath->zero)
+        return logb_x;
+
+    if (t->table == NULL)
+        return logmath_add_exact(lmath, logb_x, logb_y);
+""", """    if (t->table == NULL) {
+        if (logb_x <= lmath->zero)
+            return logb_y;
+        if (logb_y <= lmath->zero)
+            return logb_x;
+        return logmath_add_exact(lmath, logb_x, logb_y);
+    }
+""", "TWIN.symmetry")
